@@ -363,6 +363,10 @@ impl<W: Write + io::Seek> ZipWriter<W> {
     where
         S: Into<String>,
     {
+        let name = name.into();
+        if name.len() > spec::ZIP64_ENTRY_THR {
+            return Err(ZipError::InvalidArchive("File name is too long"));
+        }
         self.finish_file()?;
 
         let raw_values = raw_values.unwrap_or(ZipRawValues {
@@ -387,7 +391,7 @@ impl<W: Write + io::Seek> ZipWriter<W> {
                 crc32: raw_values.crc32,
                 compressed_size: raw_values.compressed_size,
                 uncompressed_size: raw_values.uncompressed_size,
-                file_name: name.into(),
+                file_name: name,
                 file_name_raw: Vec::new(), // Never used for saving
                 extra_field: Vec::new(),
                 file_comment: String::new(),
@@ -825,6 +829,9 @@ impl<W: Write + io::Seek> ZipWriter<W> {
     }
 
     fn finalize(&mut self) -> ZipResult<()> {
+        if self.comment.len() > spec::ZIP64_ENTRY_THR {
+            return Err(ZipError::InvalidArchive("Archive comment is too long"));
+        }
         self.finish_file()?;
 
         {
